@@ -102,7 +102,7 @@ Definition run_recv_counted (holds nontrivial : caseRecv -> bool) (cs : list cas
     top-level item with that name. *)
 Fixpoint expr_spans (e : expr) : list span :=
   match e with
-  | ELit i _ | EOther i _ => [i_span i]
+  | ELit i _ | EOther i _ | ENeg i _ => [i_span i]
   | EGroup i g => i_span i :: expr_spans g
   | EPath i p => [i_span i; i_span (p_info p)]
   | EArray i es => i_span i :: flat_map expr_spans es
